@@ -12,6 +12,8 @@ pub broadcast axiom fn ax_to_string_string(t: &String, s: String)
 pub struct Addr { pub s: String }
 impl Clone for Addr { #[verifier::external_body] fn clone(&self) -> (r: Self) ensures r == *self { unimplemented!() } }
 impl PartialEqSpecImpl for Addr { open spec fn obeys_eq_spec() -> bool { true } open spec fn eq_spec(&self, o: &Addr) -> bool { self.s@ == o.s@ } }
+impl PartialEq<Addr> for String { #[verifier::external_body] fn eq(&self, o: &Addr) -> (r: bool) ensures r == (self@ == o.s@) { unimplemented!() } }
+impl PartialEq<String> for Addr { #[verifier::external_body] fn eq(&self, o: &String) -> (r: bool) ensures r == (self.s@ == o@) { unimplemented!() } }
 impl PartialEq for Addr { #[verifier::external_body] fn eq(&self, o: &Addr) -> (r: bool) ensures r == (self.s@ == o.s@) { unimplemented!() } }
 impl Eq for Addr {}
 impl Addr {
@@ -295,8 +297,8 @@ impl QuerierWrapper {
         ensures r == bank_answer(*self, addr.str_view(), denom.str_view()), r is Ok ==> r->Ok_0.denom@ == denom.str_view()
     { unimplemented!() }
     #[verifier::external_body]
-    pub fn query_wasm_smart<T, A: StrLike, M>(&self, addr: A, msg: &M) -> (r: Result<T, StdError>)
-        ensures r == smart_answer::<T>(*self, addr.str_view(), ser::<M>(*msg))
+    pub fn query_wasm_smart<T>(&self, addr: impl StrLike, msg: &impl Sized) -> (r: Result<T, StdError>)
+        ensures r == smart_answer::<T>(*self, addr.str_view(), ser(*msg))
     { unimplemented!() }
     #[verifier::external_body]
     pub fn query_supply<B: StrLike>(&self, denom: B) -> (r: Result<Coin, StdError>)
